@@ -69,6 +69,8 @@ class TermScn:
             # the virtual process hosting worker "a"
             procs = w.procs
             host = {"popen": 1, "popen2": 1, "via": 2, "socket": 1, "via2": 3, "via+popen": 2}[P["topo"]]
+            if P.get("victim") == "master":
+                host = 1  # the state hits the via-gateway (the first child) instead of the proxied worker
             if st == "stopped":
                 vworld.signal_proc(procs[host], 19)
             elif st == "dead":
@@ -110,6 +112,9 @@ class TermScn:
         outcome = (round(ctx.get("elapsed", -1), 2), tuple(a for _, a in ctx.get("local_children", [])))
 
         def V(key, msg):
+            if P.get("victim") == "master":
+                # the via-gateway itself is the one in trouble: its own class of findings
+                key = f"via-master-{P['state']}:{key}"
             return (f"c05:{key}", f"{msg}\n  params={P}\n  ctx={ {k: v for k, v in ctx.items()} }\n  blocked={w.blocked_at_end}\n  log tail={w.logl[-6:]}\n  stderr={w.stderr.getvalue()[-500:]}"), outcome
 
         if not ctx.get("done"):
@@ -302,6 +307,14 @@ def run(tier: str, only=None) -> int:
                         n += 1
                         bounds = {"ps": 1, "free": 1} if (topo == "popen" or tier == "thorough") else {"ps": 0, "free": 1}
                         harness.run_exploration(rep, PID, name, TermScn, P, bounds, max_execs=cap, horizon=60000)
+    # the via-gateway itself is dead / stopped while it still has a proxied member
+    for topo in ("via", "via2", "via+popen"):
+        for state in ("dead", "stopped"):
+            name = f"term-master/{topo}:{state}"
+            if only and only not in name:
+                continue
+            P = {"topo": topo, "model": "thread", "state": state, "timeout": 0.5, "moment": "settled", "victim": "master"}
+            harness.run_exploration(rep, PID, name, TermScn, P, {"ps": 0, "free": 1} if tier == "quick" else {"ps": 1, "free": 1}, max_execs=cap, horizon=60000)
     # members that were exit()ed before terminate() is called (right before / a while before)
     for topo in TOPOLOGIES:
         for state in ("idle", "sleep", "swallow"):
